@@ -1,6 +1,8 @@
 import Driver.Util
 import Driver.Beh
 import ESV.Decomp.Sem
+import ESV.Decomp.Optimize
+import ESV.Decomp.GraphGuard
 open Lean Drv ESV ESV.Beh ESV.Decomp
 
 namespace Drv.DecompD
@@ -31,7 +33,11 @@ def front (rs : List (List MOp)) : Json :=
       ("has_calls", .bool (hasAnyCalls r))]
     match baseGraphs r with
     | .error e => Json.mkObj (base ++ [("error", .str e), ("stage", .str "graph")])
-    | .ok gs => Json.mkObj (base ++ [("graphs", jList graphTo gs)])
+    | .ok gs =>
+      let opt : Json := match gs.mapM (optimizePaths r.labels) with
+        | .ok os => jList graphTo os
+        | .error e => Json.mkObj [("error", .str e)]
+      Json.mkObj (base ++ [("graphs", jList graphTo gs), ("opt", opt)])
 
 /-- per-input validation of the front phases with the proven checker (`validate_sound`): machine on the
 input vs labelled machine on the resolver's output (per routine), and the routine in isolation vs its base graph -/
@@ -55,7 +61,7 @@ def checkFront (rs : List (List MOp)) : Json :=
         let fuel := 2 * items.length + g.vs.length + 8
         let budget := (items.length + 4) * (g.vs.length + 4) + 64
         ((BehD.verdictJson rm.stepAll g.step fuel budget 0 0).setObjVal! "r" (jNat k)).setObjVal! "guard"
-          (.bool (ctxGuard items))
+          (.bool (ctxGuard items && namesGuard items))
     Json.mkObj [("wf", .bool wf), ("resolver", .arr t3.toArray), ("graph", .arr t4.toArray)]
 
 def itemOf (j : Json) : R Item := do
@@ -97,7 +103,7 @@ def validateFront (rs : List (List MOp)) (labels : List Lbl) (rtns : List (List 
     let fuel := 2 * items.length + g.vs.length + 8
     let budget := (items.length + 4) * (g.vs.length + 4) + 64
     ((BehD.verdictJson rm.stepAll g.step fuel budget 0 0).setObjVal! "r" (jNat k)).setObjVal! "guard"
-      (.bool (ctxGuard items))
+      (.bool (ctxGuard items && namesGuard items))
   Json.mkObj [("wf", .bool (wfSet rs)), ("resolver", .arr t3.toArray), ("graph", .arr t4.toArray)]
 
 def handle (op : String) (j : Json) : R Json := do
